@@ -104,18 +104,18 @@ end Dict
 
 /-- The values the harness uses as keys, values and set members: the int `n`
 and the string `str(n)` (so `str 3` is `'3'`, which `int()` coerces to `int 3`). -/
-inductive Atom where
+inductive KAtom where
   | int (n : Int)
   | str (n : Int)
   deriving DecidableEq, Repr
 
-def Atom.val : Atom → Int
+def KAtom.val : KAtom → Int
   | .int n => n
   | .str n => n
 
 /-- Canonical order for printing things that came out of a set / event dict:
 ints before strings, then by number. -/
-def Atom.le : Atom → Atom → Bool
+def KAtom.le : KAtom → KAtom → Bool
   | .int a, .int b => a ≤ b
   | .int _, .str _ => true
   | .str _, .int _ => false
@@ -123,7 +123,7 @@ def Atom.le : Atom → Atom → Bool
 
 /-- The validators the harness uses (Python twins in `harness/props/maplib.py`
 `Validator.pure`); `none` = unknown spec. -/
-def Atom.validator (spec : String) : Option (Callback Atom Atom) :=
+def KAtom.validator (spec : String) : Option (Callback KAtom KAtom) :=
   match spec.splitOn ":" with
   | ["id"] => some (fun _ x => .ok x)
   | ["toint"] => some (fun _ x => .ok (.int x.val))                 -- int(x)
@@ -139,11 +139,11 @@ def Atom.validator (spec : String) : Option (Callback Atom Atom) :=
   | _ => none
 
 /-- `str(x)` as a validator (used by the F13 witness). -/
-def Atom.strV : Callback Atom Atom := fun _ x => .ok (.str x.val)
+def KAtom.strV : Callback KAtom KAtom := fun _ x => .ok (.str x.val)
 /-- `int(x)` as a validator. -/
-def Atom.intV : Callback Atom Atom := fun _ x => .ok (.int x.val)
+def KAtom.intV : Callback KAtom KAtom := fun _ x => .ok (.int x.val)
 /-- `int(x) + 1`: a validator that is not idempotent (used by the F25 witness). -/
-def Atom.incV : Callback Atom Atom := fun _ x => .ok (.int (x.val + 1))
+def KAtom.incV : Callback KAtom KAtom := fun _ x => .ok (.int (x.val + 1))
 
 /-- Decidable equality of results (core has none for `Except`); used by the
 `decide`d negation witnesses. -/
